@@ -196,13 +196,9 @@ def replay_history(run, fam, hist, d):
 
 
 def parse_hist_lines(printed):
-    out = []
-    for line in printed:
-        if not line.startswith('<<"H"'):
-            continue
-        v = parse_value(line)
-        out.append([tuple(x) for x in v[1]])
-    return out
+    from ..tlc import extract_tuples
+
+    return [[tuple(x) for x in v[1]] for v in extract_tuples("\n".join(printed) if isinstance(printed, list) else printed, "H")]
 
 
 def random_histories(fam, rng, n, maxlen):
@@ -287,10 +283,10 @@ def validate_traces(run, fam, traces, atomic, tag):
     res = run_tlc("Trace_Sync", "Trace_Sync.cfg", run, env={"SYNC_TRACES": path}, workers=1, tag="trace_" + tag)
     require_ok(res, "Trace_Sync")
     verdicts = {}
-    for line in res.printed:
-        if line.startswith('<<"V"'):
-            v = parse_value(line)
-            verdicts[v[1]] = (v[2], v[3], v[4])
+    from ..tlc import extract_tuples
+
+    for v in extract_tuples(res.out, "V"):
+        verdicts[v[1]] = (v[2], v[3], v[4])
     missing = [t["id"] for t in traces if t["id"] not in verdicts]
     if missing:
         raise MachineryFailure("Trace_Sync: %d traces not consumed to the end, e.g. id %s" % (len(missing), missing[0]))
@@ -336,7 +332,7 @@ def main(run):
         json.dump(dict(cfgs=cfgs, names=ALL_NAMES, torn=["", "1"], unq=unq, atomic=atomic, flag_vanished=flagv, **emit_bounds), f)
     res2 = run_tlc("MC_SyncDeps", "MC_SyncDeps_emit.cfg", run, env={"SYNC_CFGS": mc_path}, workers=1, timeout=3000, tag="emit")
     require_ok(res2, "SyncDeps emission")
-    hists = parse_hist_lines(res2.printed)
+    hists = parse_hist_lines(res2.out)
     if not hists:
         raise MachineryFailure("no behaviours emitted by TLC")
     maxh = 2500 if tier == "quick" else 40000
